@@ -47,12 +47,19 @@ def deviceStateGate (d : DevRec) : HP Unit :=
   else if d.state == 2 then HP.fail .access_denied
   else HP.ok ()
 
-/-- replay branch: the store reports the device code as already used.  The code revokes by the id of
-    the *token request* (`requester.GetID()`), which is what the model does too. -/
+/-- replay branch: the store reports the device code as already used; everything issued for the
+    stored device authorization is revoked -/
 def deviceReplay (rid : Nat) : Prog Err := do
   let _ ← call (.revokeAccess rid)
   let _ ← call (.revokeRefresh rid)
   return .invalid_grant
+
+/-- error path of the device-code lookup: replay branch and storage errors -/
+def deviceLookupFailed (_rid : Nat) : Res → Prog Err
+  | .usedDev d => deviceReplay d.req.id
+  | r => match r.errKind with
+    | some .not_found => retErr .invalid_grant
+    | _ => retErr .server_error
 
 def deviceExpired (d : DevRec) (cfg : Config) (now : Time) : Bool :=
   expiredAt d.req.sess.expDevice d.req.requestedAt cfg.deviceLife now
@@ -64,15 +71,14 @@ def deviceStoreReq (cfg : Config) (now : Time) (q : DevicePollReq) (client : Cli
     form := q.form, sess := stampSession cfg now d.req.sess }
 
 /-- ID-token conditions of `OpenIDConnectDeviceHandler.PopulateTokenEndpointResponse`.  The session is
-    looked up under the device-code *signature* but deleted under the *complete* device code. -/
+    looked up and deleted under the device-code signature. -/
 def oidcDevicePopulate (code : Presented) (client : Client) : HP Bool := do
   HP.guard (client.grants.contains deviceGrant) .unauthorized_client
   match ← callH (.getOIDC code.sig) with
   | .req ar =>
     HP.guard (ar.grantedScopes.contains "openid") .misconfiguration
     HP.guard (ar.sess.idSubject != "") .server_error
-    -- `DeleteOpenIDConnectSession(ctx, deviceCode)`: the complete code is no key of the table
-    expectOk (.deleteOIDC none) (fun _ => retErr .server_error)
+    expectOk (.deleteOIDC code.sig) (fun _ => retErr .server_error)
     return true
   | r =>
     match r.errKind with
@@ -86,22 +92,13 @@ def devicePollH (cfg : Config) (now : Time) (q : DevicePollReq) : HP Out := do
   let client ← authenticate q.clientId q.credOk
   -- HandleTokenEndpointRequest
   HP.guard (client.grants.contains deviceGrant) .unauthorized_client
-  let d ← (do
-    match ← callH (.getDevice q.code.sig) with
-    | .dev d => HP.ok d
-    | .usedDev _ => HP.failWith (deviceReplay rid)
-    | r => match r.errKind with
-      | some .not_found => HP.fail .invalid_grant
-      | _ => HP.fail .server_error : HP DevRec)
+  let d ← expectDev (.getDevice q.code.sig) (deviceLookupFailed rid)
   deviceStateGate d
   HP.guard (!deviceExpired d cfg now) .expired_token
   HP.guard q.code.exact .token_signature_mismatch
   HP.guard (d.req.client.id == client.id) .invalid_grant
   -- PopulateTokenEndpointResponse
-  let d2 ← (do
-    match ← callH (.getDevice q.code.sig) with
-    | .dev d2 => HP.ok d2
-    | _ => HP.fail .server_error : HP DevRec)
+  let d2 ← expectDev (.getDevice q.code.sig) (fun _ => retErr .server_error)
   HP.guard (d2.state == 1) .server_error
   let req := deviceStoreReq cfg now q client d d2
   HP.guard (!deviceExpired d2 cfg now) .expired_token
